@@ -1,1 +1,343 @@
-//! (to be filled)
+//! Independent parser for the Prometheus text exposition format 0.0.4
+//! (line-oriented on '\n' only), written from the format description, not
+//! from the encoder. Returns families in the reference representation.
+
+use crate::refmodel::*;
+
+#[derive(Debug)]
+pub struct ParseError(pub String);
+
+fn err<T>(s: impl Into<String>) -> Result<T, ParseError> {
+    Err(ParseError(s.into()))
+}
+
+fn is_name_start(c: u8) -> bool {
+    c.is_ascii_alphabetic() || c == b'_' || c == b':'
+}
+fn is_name_char(c: u8) -> bool {
+    is_name_start(c) || c.is_ascii_digit()
+}
+
+/// Float syntax of Go's strconv.ParseFloat as used by expfmt (decimal, exponent,
+/// [+-]inf / infinity / nan, case-insensitive).
+pub fn parse_float(tok: &str) -> Result<f64, ParseError> {
+    let t = tok.to_ascii_lowercase();
+    let (sign, body) = match t.as_bytes().first() {
+        Some(b'+') => (1.0, &t[1..]),
+        Some(b'-') => (-1.0, &t[1..]),
+        _ => (1.0, &t[..]),
+    };
+    match body {
+        "inf" | "infinity" => return Ok(sign * f64::INFINITY),
+        "nan" => return Ok(f64::NAN),
+        _ => {}
+    }
+    // decimal: digits [. digits] [e [+-] digits]  |  . digits [...]
+    let b = body.as_bytes();
+    let mut i = 0;
+    let mut digits = 0;
+    while i < b.len() && b[i].is_ascii_digit() {
+        i += 1;
+        digits += 1;
+    }
+    if i < b.len() && b[i] == b'.' {
+        i += 1;
+        while i < b.len() && b[i].is_ascii_digit() {
+            i += 1;
+            digits += 1;
+        }
+    }
+    if digits == 0 {
+        return err(format!("not a float: {:?}", tok));
+    }
+    if i < b.len() && b[i] == b'e' {
+        i += 1;
+        if i < b.len() && (b[i] == b'+' || b[i] == b'-') {
+            i += 1;
+        }
+        let s = i;
+        while i < b.len() && b[i].is_ascii_digit() {
+            i += 1;
+        }
+        if i == s {
+            return err(format!("not a float: {:?}", tok));
+        }
+    }
+    if i != b.len() {
+        return err(format!("not a float: {:?}", tok));
+    }
+    t.parse::<f64>().map_err(|_| ParseError(format!("not a float: {:?}", tok)))
+}
+
+fn unescape_help(s: &str) -> Result<String, ParseError> {
+    let mut out = String::new();
+    let mut it = s.chars();
+    while let Some(c) = it.next() {
+        if c == '\\' {
+            match it.next() {
+                Some('\\') => out.push('\\'),
+                Some('n') => out.push('\n'),
+                other => return err(format!("invalid escape \\{:?} in help", other)),
+            }
+        } else {
+            out.push(c);
+        }
+    }
+    Ok(out)
+}
+
+#[derive(Debug, Clone)]
+pub struct Sample {
+    pub name: String,
+    pub labels: Vec<(String, String)>,
+    pub value: f64,
+    pub ts: Option<i64>,
+}
+
+/// Parse one sample line.
+pub fn parse_sample(line: &str) -> Result<Sample, ParseError> {
+    let b = line.as_bytes();
+    let mut i = 0;
+    if b.is_empty() || !is_name_start(b[0]) {
+        return err(format!("sample line does not start with a metric name: {:?}", line));
+    }
+    while i < b.len() && is_name_char(b[i]) {
+        i += 1;
+    }
+    let name = line[..i].to_string();
+    let mut labels = vec![];
+    if i < b.len() && b[i] == b'{' {
+        i += 1;
+        loop {
+            if i < b.len() && b[i] == b'}' {
+                i += 1;
+                break;
+            }
+            let s = i;
+            if i >= b.len() || !(b[i].is_ascii_alphabetic() || b[i] == b'_') {
+                return err(format!("bad label name at byte {} of {:?}", i, line));
+            }
+            while i < b.len() && (b[i].is_ascii_alphanumeric() || b[i] == b'_') {
+                i += 1;
+            }
+            let lname = line[s..i].to_string();
+            if i + 1 >= b.len() || b[i] != b'=' || b[i + 1] != b'"' {
+                return err(format!("expected =\" after label name in {:?}", line));
+            }
+            i += 2;
+            let mut val = String::new();
+            loop {
+                if i >= b.len() {
+                    return err(format!("unterminated label value in {:?}", line));
+                }
+                // operate on chars to keep multi-byte sequences intact
+                let c = line[i..].chars().next().unwrap();
+                i += c.len_utf8();
+                match c {
+                    '"' => break,
+                    '\\' => {
+                        let e = line[i..].chars().next();
+                        match e {
+                            Some('\\') => val.push('\\'),
+                            Some('"') => val.push('"'),
+                            Some('n') => val.push('\n'),
+                            other => return err(format!("invalid escape \\{:?} in label value of {:?}", other, line)),
+                        }
+                        i += 1;
+                    }
+                    c => val.push(c),
+                }
+            }
+            labels.push((lname, val));
+            if i < b.len() && b[i] == b',' {
+                i += 1;
+            } else if i < b.len() && b[i] == b'}' {
+                i += 1;
+                break;
+            } else {
+                return err(format!("expected , or }} after label value in {:?}", line));
+            }
+        }
+    }
+    if i >= b.len() || b[i] != b' ' {
+        return err(format!("expected space before the value in {:?}", line));
+    }
+    let rest: Vec<&str> = line[i..].split(' ').filter(|s| !s.is_empty()).collect();
+    if rest.is_empty() || rest.len() > 2 {
+        return err(format!("expected value [timestamp] in {:?}", line));
+    }
+    let value = parse_float(rest[0])?;
+    let ts = match rest.get(1) {
+        Some(t) => Some(t.parse::<i64>().map_err(|_| ParseError(format!("bad timestamp {:?}", t)))?),
+        None => None,
+    };
+    Ok(Sample { name, labels, value, ts })
+}
+
+/// A family as the text shows it.
+#[derive(Debug, Clone)]
+pub struct TFamily {
+    pub name: String,
+    pub help: String,
+    pub typ: Option<String>,
+    pub samples: Vec<Sample>,
+}
+
+/// Split a document into families (a family starts at `# HELP` / `# TYPE`).
+pub fn parse_document(text: &str) -> Result<Vec<TFamily>, ParseError> {
+    if !text.is_empty() && !text.ends_with('\n') {
+        return err("document does not end with a newline");
+    }
+    let mut fams: Vec<TFamily> = vec![];
+    for line in text.split('\n') {
+        if line.is_empty() {
+            continue;
+        }
+        if let Some(rest) = line.strip_prefix("# HELP ") {
+            let (name, help) = match rest.find(' ') {
+                Some(p) => (&rest[..p], &rest[p + 1..]),
+                None => (rest, ""),
+            };
+            fams.push(TFamily { name: name.to_string(), help: unescape_help(help)?, typ: None, samples: vec![] });
+        } else if let Some(rest) = line.strip_prefix("# TYPE ") {
+            let parts: Vec<&str> = rest.split(' ').collect();
+            if parts.len() != 2 {
+                return err(format!("malformed TYPE line {:?}", line));
+            }
+            match fams.last_mut() {
+                Some(f) if f.name == parts[0] && f.typ.is_none() && f.samples.is_empty() => f.typ = Some(parts[1].to_string()),
+                _ => fams.push(TFamily { name: parts[0].to_string(), help: String::new(), typ: Some(parts[1].to_string()), samples: vec![] }),
+            }
+        } else if line.starts_with('#') {
+            // other comments are ignored by the format
+            continue;
+        } else {
+            let s = parse_sample(line)?;
+            match fams.last_mut() {
+                Some(f) => f.samples.push(s),
+                None => return err(format!("sample before any TYPE line: {:?}", line)),
+            }
+        }
+    }
+    Ok(fams)
+}
+
+/// Regroup the sample lines of each family into metrics of the reference model.
+/// Histogram: buckets (with `le`), then `_sum`, `_count`; summary: quantile
+/// lines, `_sum`, `_count`. The histogram's bucket list is returned as printed,
+/// including the `+Inf` line.
+pub fn to_families(doc: &[TFamily]) -> Result<Vec<RFamily>, ParseError> {
+    let mut out = vec![];
+    for f in doc {
+        let typ = match f.typ.as_deref() {
+            Some("counter") => RType::Counter,
+            Some("gauge") => RType::Gauge,
+            Some("histogram") => RType::Histogram,
+            Some("summary") => RType::Summary,
+            Some("untyped") => RType::Untyped,
+            other => return err(format!("family {} has type {:?}", f.name, other)),
+        };
+        let mut metrics: Vec<RMetric> = vec![];
+        match typ {
+            RType::Counter | RType::Gauge | RType::Untyped => {
+                for s in &f.samples {
+                    if s.name != f.name {
+                        return err(format!("sample {} inside family {}", s.name, f.name));
+                    }
+                    let mut m = RMetric { labels: s.labels.clone(), ts: s.ts, ..Default::default() };
+                    match typ {
+                        RType::Counter => m.counter = Some(s.value),
+                        RType::Gauge => m.gauge = Some(s.value),
+                        _ => m.untyped = Some(s.value),
+                    }
+                    metrics.push(m);
+                }
+            }
+            RType::Histogram | RType::Summary => {
+                let extra = if typ == RType::Histogram { "le" } else { "quantile" };
+                let line_name = if typ == RType::Histogram { format!("{}_bucket", f.name) } else { f.name.clone() };
+                let mut cur: Option<(Vec<(String, String)>, Option<i64>, Vec<(f64, f64)>, Option<f64>)> = None;
+                for s in &f.samples {
+                    if s.name == line_name && s.labels.last().map(|l| l.0 == extra).unwrap_or(false) {
+                        let base: Vec<(String, String)> = s.labels[..s.labels.len() - 1].to_vec();
+                        let key = parse_float(&s.labels.last().unwrap().1)?;
+                        match &mut cur {
+                            Some((l, ts, b, sum)) if *l == base && sum.is_none() => {
+                                if *ts != s.ts {
+                                    return err("timestamp differs inside one metric");
+                                }
+                                b.push((key, s.value));
+                            }
+                            Some(_) => return err(format!("{} line while the previous metric is incomplete", extra)),
+                            None => cur = Some((base, s.ts, vec![(key, s.value)], None)),
+                        }
+                    } else if s.name == format!("{}_sum", f.name) {
+                        match &mut cur {
+                            Some((l, ts, _, sum)) if *l == s.labels && sum.is_none() && *ts == s.ts => *sum = Some(s.value),
+                            Some(_) => return err("_sum line does not continue the metric"),
+                            None => cur = Some((s.labels.clone(), s.ts, vec![], Some(s.value))),
+                        }
+                    } else if s.name == format!("{}_count", f.name) {
+                        match cur.take() {
+                            Some((l, ts, b, Some(sum))) if l == s.labels && ts == s.ts => {
+                                let mut m = RMetric { labels: l, ts, ..Default::default() };
+                                // the printed count is a float; keep it as the f64 it was printed from
+                                if typ == RType::Histogram {
+                                    m.histogram = Some((s.value.to_bits(), sum, b.iter().map(|(u, c)| (*u, c.to_bits())).collect()));
+                                } else {
+                                    m.summary = Some((s.value.to_bits(), sum, b));
+                                }
+                                metrics.push(m);
+                            }
+                            _ => return err("_count line without preceding _sum of the same metric"),
+                        }
+                    } else {
+                        return err(format!("line {} does not belong to {} family {}", s.name, f.typ.as_deref().unwrap_or(""), f.name));
+                    }
+                }
+                if cur.is_some() {
+                    return err(format!("family {} ends inside a metric", f.name));
+                }
+            }
+        }
+        out.push(RFamily { name: f.name.clone(), help: f.help.clone(), typ, metrics });
+    }
+    Ok(out)
+}
+
+/// What the text of `f` must parse back to: counts become the bits of the f64
+/// they are printed from; a histogram gets its `+Inf` line unless an explicit
+/// +Inf bound is present; absent timestamps and 0 are the same.
+pub fn expected_view(f: &RFamily) -> RFamily {
+    let mut g = f.clone();
+    for m in &mut g.metrics {
+        if m.ts == Some(0) {
+            m.ts = None;
+        }
+        // only the payload of the declared type is rendered
+        let (c, ga, h, s) = (m.counter, m.gauge, m.histogram.clone(), m.summary.clone());
+        m.counter = None;
+        m.gauge = None;
+        m.untyped = None;
+        m.histogram = None;
+        m.summary = None;
+        match g.typ {
+            RType::Counter => m.counter = Some(c.unwrap_or(0.0)),
+            RType::Gauge => m.gauge = Some(ga.unwrap_or(0.0)),
+            RType::Histogram => {
+                let (cnt, sum, b) = h.unwrap_or((0, 0.0, vec![]));
+                let mut bb: Vec<(f64, u64)> = b.iter().map(|(u, n)| (*u, (*n as f64).to_bits())).collect();
+                if !b.iter().any(|(u, _)| *u == f64::INFINITY) {
+                    bb.push((f64::INFINITY, (cnt as f64).to_bits()));
+                }
+                m.histogram = Some(((cnt as f64).to_bits(), sum, bb));
+            }
+            RType::Summary => {
+                let (cnt, sum, q) = s.unwrap_or((0, 0.0, vec![]));
+                m.summary = Some(((cnt as f64).to_bits(), sum, q));
+            }
+            RType::Untyped => {}
+        }
+    }
+    g
+}
